@@ -189,15 +189,15 @@ def _init_complete(ctx) -> None:
 def run(ctx) -> None:
     ctx.explanation = EXPLANATION
     dtm, dm = pmod("datetime"), pmod("date")
-    AD.month_clamp_order(ctx)
+    ctx.step(AD.month_clamp_order, ctx)
     from . import C15
-    C15.clamp_dependencies(ctx)
+    ctx.step(C15.clamp_dependencies, ctx)
     from . import C09
-    C09._duration_new(ctx)      # `+ Duration` shifts by d.years/months/weeks/remaining_days: the breakdown computed in Duration.__new__
-    AD.carry_blocks(ctx)
-    AD.datetime_add_shape(ctx)
-    AD.neg_symmetry(ctx, dtm, "DateTime")
-    AD.neg_symmetry(ctx, dm, "Date")
+    ctx.step(C09._duration_new, ctx)      # `+ Duration` shifts by d.years/months/weeks/remaining_days: the breakdown computed in Duration.__new__
+    ctx.step(AD.carry_blocks, ctx)
+    ctx.step(AD.datetime_add_shape, ctx)
+    ctx.step(AD.neg_symmetry, ctx, dtm, "DateTime")
+    ctx.step(AD.neg_symmetry, ctx, dm, "Date")
     # Date.add: rebuild both ways + forwarding
     fn = dm.func("Date.add")
     for c in core.calls(fn):
@@ -207,10 +207,10 @@ def run(ctx) -> None:
                    f"add_duration receives {k}", dm.loc(c))
     for s in recon.sites_in(dm, ["Date.add"]):
         recon.check_site(ctx, s)
-    _siblings(ctx, dtm, "DateTime", "_add_timedelta_", "_subtract_timedelta", AD.ADD_PARAMS)
-    _siblings(ctx, dm, "Date", "_add_timedelta", "_subtract_timedelta", ["years", "months", "weeks", "days"])
-    _neg_and_signature(ctx)
-    _init_complete(ctx)
+    ctx.step(_siblings, ctx, dtm, "DateTime", "_add_timedelta_", "_subtract_timedelta", AD.ADD_PARAMS)
+    ctx.step(_siblings, ctx, dm, "Date", "_add_timedelta", "_subtract_timedelta", ["years", "months", "weeks", "days"])
+    ctx.step(_neg_and_signature, ctx)
+    ctx.step(_init_complete, ctx)
     ctx.expect_min("ORDER.clamp", 6)
     ctx.expect_min("SIBLING.arms", 6)
     ctx.expect_min("NEGSYM", 14)
